@@ -11,11 +11,11 @@ import (
 )
 
 // The path alphabet used for sentences and mutations (tokens are atomic).
-var pathTokens = []string{"(", ")", "/", "|", "^", ".", "@type", "ex.a", "ex.b", " ", "#"}
+var pathTokens = []string{"(", ")", "/", "|", "^", ".", "@type", "ex.a", "ex.b", " ", "#", "\v"}
 
 type c16Case struct {
-	Text string `json:"text"`
-	Via  string `json:"via"` // "compile" (end to end through CompileProfile) or "hook" (parser only)
+	Text   string `json:"text"`
+	Via    string `json:"via"` // "compile" (end to end through CompileProfile) or "hook" (parser only)
 	Origin string `json:"origin,omitempty"`
 }
 
